@@ -82,16 +82,12 @@ Proof.
   destruct x as [z | | ]; unfold otto_indexof_start, clamp_indexof, xsat, sat64, two63, min_int64, max_int64; brk; try reflexivity; try lia; f_equal; lia.
 Qed.
 
-(* lastIndexOf agrees except when ToInteger(fromIndex) = len *)
-Lemma lastindexof_core : forall x len, len_ok len -> x <> XI len ->
+Lemma lastindexof_core : forall x len, len_ok len ->
   otto_lastindexof_start (xsat x) len = clamp_lastindexof x len.
 Proof.
-  intros x len [H0 H1] Hne. assert (len < 9007199254740992) by (change (2 ^ 53) with 9007199254740992 in H1; lia).
-  destruct x as [z | | ].
-  - assert (z <> len) by (intro; subst; apply Hne; reflexivity).
-    unfold otto_lastindexof_start, clamp_lastindexof, xsat, sat64, two63, min_int64, max_int64; brk; try reflexivity; try lia; f_equal; lia.
-  - unfold otto_lastindexof_start, clamp_lastindexof, xsat, max_int64; brk; try reflexivity; lia.
-  - unfold otto_lastindexof_start, clamp_lastindexof, xsat, min_int64; brk; try reflexivity; lia.
+  intros x len [H0 H1]. assert (len < 9007199254740992) by (change (2 ^ 53) with 9007199254740992 in H1; lia).
+  destruct x as [z | | ]; unfold otto_lastindexof_start, clamp_lastindexof, xsat, sat64, two63, min_int64, max_int64;
+    brk; try reflexivity; try lia; f_equal; lia.
 Qed.
 
 Theorem rel_agree : forall v len, len_ok len -> otto_rel v len = dia_rel es5 v len.
@@ -112,12 +108,11 @@ Proof.
   destruct (to_integer v); cbn [option_map]; [f_equal; apply indexof_core; assumption | reflexivity].
 Qed.
 
-Theorem lastindexof_agree : forall v len, len_ok len -> to_integer v <> Some (XI len) ->
+Theorem lastindexof_agree : forall v len, len_ok len ->
   otto_lastindexof v len = dia_lastindexof es5 v len.
 Proof.
-  intros v len H Hne. unfold otto_lastindexof. cbn [dia_lastindexof es5]. rewrite otto_int64_sat.
-  destruct (to_integer v) as [x | ]; cbn [option_map]; [ | reflexivity].
-  f_equal. apply lastindexof_core; [assumption | intro; subst; apply Hne; reflexivity].
+  intros v len H. unfold otto_lastindexof. cbn [dia_lastindexof es5]. rewrite otto_int64_sat.
+  destruct (to_integer v) as [x | ]; cbn [option_map]; [f_equal; apply lastindexof_core; assumption | reflexivity].
 Qed.
 
 (* rangeStartEnd as builtinArraySlice uses it against 15.4.4.10 steps 5-8 *)
@@ -199,29 +194,3 @@ Proof.
   - destruct c as [ | p | p]; try reflexivity.
     do 6 (destruct p as [p | p | ]; try reflexivity). congruence.
 Qed.
-
-Theorem array_index_plain : forall s, plain s = true ->
-  stringToArrayIndex s = array_index (key_of_string s).
-Proof.
-  intros s0 H. destruct s0 as [ | c r]; [reflexivity |].
-  remember (c :: r) as s eqn:Es.
-  assert (Hne : s <> []) by (subst; discriminate).
-  unfold stringToArrayIndex, otto_parse_int, key_of_string.
-  rewrite (canon_dec_plain s H Hne).
-  assert (Hsign : (if c =? 43 then (false, r) else if c =? 45 then (true, r) else (false, s)) = (false, s)).
-  { rewrite Es in H. cbn [plain] in H. apply andb_prop in H. destruct H as [H _]. apply andb_prop in H. destruct H as [H1 H2].
-    destruct (c =? 43); [discriminate |]. destruct (c =? 45); [discriminate | reflexivity]. }
-  rewrite Es at 1. rewrite Hsign.
-  destruct (zlist_eqb s str_length) eqn:L.
-  - apply zlist_eqb_eq in L. rewrite L. reflexivity.
-  - rewrite Es at 1. destruct (parse_digits s 0) as [n | ] eqn:P; [ | reflexivity].
-    pose proof (parse_digits_ge _ _ _ P ltac:(lia)) as Hn.
-    clear Hsign H L. cbn [array_index]. unfold min_int64, max_int64, max_index. brk; cbn [orb]; brk; try reflexivity; lia.
-Qed.
-
-(* witnesses of the deviation *)
-Lemma array_index_signed_zero_padded :
-  stringToArrayIndex [48; 49] = Some 1 /\ array_index (key_of_string [48; 49]) = None /\
-  stringToArrayIndex [43; 49] = Some 1 /\ array_index (key_of_string [43; 49]) = None /\
-  stringToArrayIndex [45; 48] = Some 0 /\ array_index (key_of_string [45; 48]) = None.
-Proof. vm_compute. repeat split. Qed.
